@@ -166,6 +166,99 @@ func checkRoot(w *eng.W, b ref.Bits, k int) {
 	}
 }
 
+// hardRoots constructs arguments whose exact k-th root lies extremely close to (but more than 1e-20 ulp
+// from) a rounding midpoint: m = a + eps where a is a short decimal rich in factors of two and eps = odd*5^p
+// half-units, so that a^k + k*a^(k-1)*eps is itself a short decimal. d is the member nearest to m^k; it is kept
+// when the root's distance from the midpoint is between 1e-19 and 1e-7 ulp (decided with 400-bit arithmetic).
+func hardRoots(k int, thorough bool) []ref.Bits {
+	var out []ref.Bits
+	seen := map[ref.Bits]bool{}
+	prec := uint(600)
+	tmax := int64(80)
+	if thorough {
+		tmax = 400
+	}
+	for e2 := 0; e2 <= 18; e2 += 2 {
+		for t := int64(1); t <= tmax; t++ {
+			aInt := new(big.Int).Lsh(big.NewInt(t), uint(e2))
+			for _, dq := range []int{0, 1, 2} {
+				// a = aInt * 10^-z placed in the decade [10^(dq-1), 10^dq)
+				z := ref.NumDigits(aInt) - dq
+				// spacing of the format at a
+				an, _ := ref.Fit(false, aInt, -z)
+				c := new(big.Int).Set(an.C)
+				q := an.Q
+				for {
+					tt := new(big.Int).Mul(c, big.NewInt(10))
+					if tt.Cmp(ref.Cmax) > 0 {
+						break
+					}
+					c, q = tt, q-1
+				}
+				for p := 4; p <= 24; p++ {
+					for _, wv := range []int64{1, 3, 7} {
+						for _, sg := range []int64{1, -1} {
+							odd := new(big.Int).Exp(big.NewInt(5), big.NewInt(int64(p)), nil)
+							odd.Mul(odd, big.NewInt(wv*sg))
+							// m = c*10^q + odd/2 * 10^q  = (2c + odd) * 10^q / 2
+							m2 := new(big.Int).Add(new(big.Int).Lsh(c, 1), odd) // 2m / 10^q
+							if m2.Sign() <= 0 {
+								continue
+							}
+							// m^k = m2^k * 10^(kq) / 2^k  = m2^k * 5^k * 10^(kq-k)
+							mk := new(big.Int).Exp(m2, big.NewInt(int64(k)), nil)
+							mk.Mul(mk, new(big.Int).Exp(big.NewInt(5), big.NewInt(int64(k)), nil))
+							dv, _ := ref.Round(false, mk, big.NewInt(1), k*q-k, ref.NearestEven)
+							if dv.Class != ref.Fin || dv.C.Sign() == 0 {
+								continue
+							}
+							// distance of root(d) from m in ulps: (d - m^k) / (k m^(k-1) u)
+							df := new(big.Float).SetPrec(prec).SetInt(dv.C)
+							scale := func(f *big.Float, e int) {
+								if e >= 0 {
+									f.Mul(f, new(big.Float).SetPrec(prec).SetInt(ref.Pow10(e)))
+								} else {
+									f.Quo(f, new(big.Float).SetPrec(prec).SetInt(ref.Pow10(-e)))
+								}
+							}
+							scale(df, dv.Q)
+							mkf := new(big.Float).SetPrec(prec).SetInt(mk)
+							scale(mkf, k*q-k)
+							num := new(big.Float).SetPrec(prec).Sub(df, mkf)
+							if num.Sign() == 0 {
+								continue // root exactly on a midpoint: the property does not decide it
+							}
+							mf := new(big.Float).SetPrec(prec).SetInt(m2)
+							scale(mf, q)
+							mf.Quo(mf, big.NewFloat(2))
+							den := new(big.Float).SetPrec(prec).SetInt64(int64(k))
+							for i := 0; i < k-1; i++ {
+								den.Mul(den, mf)
+							}
+							uf := new(big.Float).SetPrec(prec).SetInt64(1)
+							scale(uf, q)
+							den.Mul(den, uf)
+							dist := num.Quo(num, den)
+							dist.Abs(dist)
+							lo, _ := new(big.Float).SetString("1e-19")
+							hi, _ := new(big.Float).SetString("1e-7")
+							if dist.Cmp(lo) < 0 || dist.Cmp(hi) > 0 {
+								continue
+							}
+							b := MkBits(false, dv.C, dv.Q)
+							if !seen[b] {
+								seen[b] = true
+								out = append(out, b)
+							}
+						}
+					}
+				}
+			}
+		}
+	}
+	return out
+}
+
 func init() {
 	for _, k := range []int{2, 3} {
 		k := k
@@ -312,5 +405,32 @@ func C17(r *eng.Run) {
 		}
 	})
 	r.Phase("perfect powers, specials", t0, nil)
-	r.Require("Sqrt/perfect-power", "Cbrt/perfect-power", "Sqrt/exp-mod2=0", "Sqrt/exp-mod2=1", "Cbrt/exp-mod3=0", "Cbrt/exp-mod3=1", "Cbrt/exp-mod3=2", "Sqrt/negative", "Sqrt/zero", "Cbrt/inf")
+
+	// roots within 1e-19..1e-7 ulp of a rounding midpoint (where an iteration that stops slightly early shows)
+	t0 = time.Now()
+	h2, h3 := hardRoots(2, r.Thorough()), hardRoots(3, r.Thorough())
+	r.Bounds["near_midpoint_sqrt_arguments"] = len(h2)
+	r.Bounds["near_midpoint_cbrt_arguments"] = len(h3)
+	r.Par(len(h2), func(w *eng.W, i int) {
+		checkRoot(w, h2[i], 2)
+		w.Cell("Sqrt/near-midpoint", true)
+		// the same digits two and one decades up (both exponent parities)
+		v := ref.Decode(h2[i])
+		if v.Q+2 <= ref.MaxQ {
+			checkRoot(w, MkBits(false, v.C, v.Q+2), 2)
+		}
+	})
+	r.Par(len(h3), func(w *eng.W, i int) {
+		checkRoot(w, h3[i], 3)
+		nb := h3[i]
+		nb[0] |= 0x80
+		checkRoot(w, nb, 3)
+		w.Cell("Cbrt/near-midpoint", true)
+		v := ref.Decode(h3[i])
+		if v.Q+3 <= ref.MaxQ {
+			checkRoot(w, MkBits(false, v.C, v.Q+3), 3)
+		}
+	})
+	r.Phase("near-midpoint roots", t0, nil)
+	r.Require("Sqrt/perfect-power", "Cbrt/perfect-power", "Sqrt/exp-mod2=0", "Sqrt/exp-mod2=1", "Cbrt/exp-mod3=0", "Cbrt/exp-mod3=1", "Cbrt/exp-mod3=2", "Sqrt/negative", "Sqrt/zero", "Cbrt/inf", "Sqrt/near-midpoint", "Cbrt/near-midpoint")
 }
